@@ -19,7 +19,9 @@ WeekLimit == Dg(<<1,5,2,5,0,2,8,4,4,5,2>>)
 IntsQ == << I(0), I(1), I(-1), I(2), I(3), I(-7), I(12), VInt(P2(63)), VInt(ZAdd(P2(64), ZOne)),
             VInt(P2(96)), VInt(I128Max), VInt(I128Min),
             VInt(SecLimit), VInt(ZAdd(SecLimit, ZOne)), VInt(ZAdd(DTMaxSec, ZOne)),
-            VInt(WeekLimit), VInt(ZAdd(WeekLimit, ZOne)) >>
+            VInt(WeekLimit), VInt(ZAdd(WeekLimit, ZOne)),
+            \* between the widths: 1.5 * 10^19 (in 2^63..2^64), u64::MAX
+            VInt(Dg(<<1,5,0,0,0,0,0,0,0,0,0,0,0,0,0,0,0,0,0,0>>)), VInt(ZSub(P2(64), ZOne)) >>
 IntsX == << I(6), I(7), I(10), I(32768), VInt(P2(31)), VInt(ZSub(P2(63), ZOne)), VInt(ZNeg(P2(63))),
             VInt(ZSub(ZNeg(P2(63)), ZOne)), VInt(P2(64)), VInt(ZSub(P2(96), ZOne)),
             VInt(ZSub(I128Max, ZOne)), VInt(ZAdd(I128Min, ZOne)),
@@ -38,13 +40,16 @@ FloatsQ == << VFloat(FZero(1)), VFloat(FZero(-1)), Fl(1, 1, 0), Fl(-1, 1, 0), Fl
 FloatsX == << Fl(1, 3, -1), Fl(-1, 3, -1), Fl(1, 7, -2), VFloat(FNorm(1, <<1>>, 53)), VFloat(FNorm(-1, <<1>>, 127)),
               VFloat(FNorm(1, <<1>>, -1074)), VFloat(FNorm(1, MAdd(MPow2(53), <<2>>), 0)),
               VFloat(FNorm(-1, <<1>>, 63)), Fl(1, 7, 0), VFloat(FNorm(1, <<1>>, 96)), Fl(-1, 7, -1),
-              VFloat(FNorm(1, <<1>>, -1022)), VFloat(FNorm(1, <<1>>, 64)) >>
+              VFloat(FNorm(1, <<1>>, -1022)), VFloat(FNorm(1, <<1>>, 64)),
+              VFloat(FFromDecimal(1, <<95>>, 17)), VFloat(FFromDecimal(1, MFromDigits(<<1,2,3,4,5,6,7,8,9,0,1,2,3,4,5,6,7>>), 3)),
+              VFloat(FFromDecimal(-1, MFromDigits(<<2,7,1,8,2,8,1,8,2,8,4,5,9,0,4,5>>), -15)), VFloat(FFromDecimal(1, <<25>>, -21)) >>
 
 DecMaxV == VDec(Z(1, DecMaxM), 0)
 DecsQ == << Dc(0, 0), Dc(0, 1), Dc(1, 0), Dc(-1, 0), Dc(10, 1), Dc(150, 2), Dc(25, 1), Dc(-25, 1), Dc(35, 1),
             Dc(1, 1), Dc(3, 0), DecMaxV, VDec(Z(-1, DecMaxM), 0), Dc(1, 28), Dc(5, 1), Dc(4, 1) >>
 DecsX == << Dc(10, 0), VDec(Z(1, MSub(DecMaxM, <<1>>)), 0), Dc(725, 2), Dc(-5, 1), Dc(-15, 1), Dc(7, 0),
-            VDec(Z(1, DecMaxM), 28), Dc(250000001, 8), Dc(2, 0), Dc(-35, 1), Dc(45, 1) >>
+            VDec(Z(1, DecMaxM), 28), Dc(250000001, 8), Dc(2, 0), Dc(-35, 1), Dc(45, 1),
+           VDec(Z(1, MFromDigits(<<1,2,3,4,5,6,7,8,9,0,1,2,3,4,5,6,7,8,9>>)), 15), VDec(Z(-1, MFromDigits(<<9,9,9,9,9,9,9,9,9,9,9,9,9,9,9,9,9,9,9,5>>)), 19) >>
 
 StrsQ == << St(""), St("a"), St("A"), St("abc"), St(" a "), St(" "), VStr(<<9, 10, 8195>>), St("1"), St("i1"), St("1.5"), St("true"),
             St("NaN"), St("-7"), St("2015-07-30T03:26:13Z"), St("2015-02-30T00:00:00Z"), St("2015-07-30T03:26:13"),
